@@ -219,12 +219,17 @@ func (its *jsonPrimitive) getTargetByPaths(paths []string) (jsonType, errors.Ord
 		switch node.getType() {
 		case TypeJSONElement:
 			its.common.L().Errorf("invalid target")
+			// a primitive has no members: the rest of the path addresses nothing
+			return nil, errors.DatatypeNoTarget.New(its.common.L(), strings.Join(paths, "/"))
 		case TypeJSONObject:
 			node = node.(*jsonObject).getAsJSONType(s)
 		case TypeJSONArray:
 			pos, err := strconv.Atoi(s)
 			if err != nil {
 				return nil, errors.DatatypeNoTarget.New(its.common.L(), "invalid path:%v from %v", s, strings.Join(paths, "/"))
+			}
+			if rangeErr := node.(*jsonArray).validateGetRange(pos, 1); rangeErr != nil {
+				return nil, errors.DatatypeNoTarget.New(its.common.L(), strings.Join(paths, "/"))
 			}
 			node = node.(*jsonArray).getJSONType(pos)
 		}
